@@ -33,7 +33,7 @@ class PrintTimeout(BaseException):
     """a single pformat call ran longer than PRINT_TIMEOUT seconds (a check must end on code that does not)"""
 
 
-PRINT_TIMEOUT = 20
+PRINT_TIMEOUT = 90
 MAX_TIMEOUTS = 3          # after this many calls that did not return, a run stops printing further cases
 TIMEOUTS = [0]
 
